@@ -39,8 +39,8 @@ type Probe struct {
 
 type ProbeResult struct {
 	I       int    `json:"i"`
-	Err     string `json:"err"`  // classified error name, "" when the call succeeded
-	Out     string `json:"out"`  // hex of what was appended to the sink (short outputs only)
+	Err     string `json:"err"` // classified error name, "" when the call succeeded
+	Out     string `json:"out"` // hex of what was appended to the sink (short outputs only)
 	OutLen  int    `json:"outlen"`
 	Crashed bool   `json:"crashed"`
 	Timeout bool   `json:"timeout"`
